@@ -63,6 +63,11 @@ def to_file_doc(d):
         sd = {**named("FxSystem", "FxSystem"),
               "params": {"i": i, "id": s["id"], "priority": s["prio"], "frequency": s["freq"], "start": s["start"],
                          "end": sys.maxsize if s["end"] >= 999999 else s["end"]}}
+        if d.get("nomod", 0) % 2 == 0 or i % 2 == 0:
+            # keys whose declared value is the documented default are left out of every other system entry
+            for key, dflt in (("priority", 0), ("frequency", 1), ("start", 0), ("end", sys.maxsize)):
+                if sd["params"][key] == dflt:
+                    del sd["params"][key]
         if s["pre"]:
             sd["pre_system_init"] = hk("pre_system", i)
         if s["post"]:
